@@ -1,7 +1,7 @@
 (* Props/C15.v -- Phase ordering and decimal I/O use the full two-part value.  Statements only. *)
 From Coq Require Import ZArith QArith Reals Floats Bool String List Sorting.Permutation Sorting.Sorted.
 From Flocq Require Import Core BinarySingleNaN PrimFloat.
-From PB Require Import Proofs.TwoSumExact Model.Phase2 Model.DecStr Proofs.Floor Proofs.PhaseCmp Proofs.PhaseCmpAll Proofs.DecStrProofs Model.PhaseOrd Proofs.PhaseArgmin Proofs.PhaseSort Proofs.PhaseRemainder.
+From PB Require Import Proofs.TwoSumExact Model.Phase2 Model.DecStr Proofs.Floor Proofs.PhaseCmp Proofs.PhaseCmpAll Proofs.DecStrProofs Model.PhaseOrd Proofs.PhaseArgmin Proofs.PhaseSort Proofs.PhaseRemainder Gen.GenPhase Proofs.PhaseGen.
 Open Scope R_scope.
 
 (* comparison branch, bit-exact model: diff = (int1 - int2) + (frac1 - frac2) has exactly the sign of the exact difference
@@ -121,6 +121,11 @@ Proof. exact psort_ordered. Qed.
    float-level parser (count, frac as doubles) being within 2^-52 of the exact parser above, to_string = exact value rounded to the
    digits shown, from_string (to_string p) = p. *)
 
+(* tie to the source by translation (T7): the difference the comparison branch of Phase.__array_ufunc__ compares with zero is the
+   expression GENERATED from pulsar/phase.py on this run *)
+Theorem C15_generated_diff : forall a b : ph, Phase2.phase_diff a b = gen_cmp_diff a b.
+Proof. exact phase_diff_generated. Qed.
+
 Print Assumptions C15_diff_sign.
 Print Assumptions C15_comparisons.
 Print Assumptions C15_parse_split.
@@ -132,3 +137,4 @@ Print Assumptions C15_argsort_perm.
 Print Assumptions C15_argsort_sorted_partial.
 Print Assumptions C15_cycle_order_exact.
 Print Assumptions C15_argsort_ordered.
+Print Assumptions C15_generated_diff.
